@@ -70,6 +70,9 @@ structure JStep where
   fault : Option JFault := none     -- C10 only
   drift : Option Bool := none       -- C10 only
   wfault : Option JWFault := none   -- op = reconcile | phase: a refused write on a managed object
+  -- op = reconcile | phase: kinds whose REST-mapper lookups fail (transient, non-NoMatch) during this
+  -- pass (`mapErrClass` — which error exactly — is not read)
+  mapErr : Option (List String) := none
   deriving FromJson, Repr
 
 structure Scn where
@@ -268,7 +271,7 @@ def stepModel (scn : Scn) (cfg : Cfg) (st : JStep) (s : Sys) : Sys × String :=
   | "phase" =>
     let s0 : Sys := { s with w := { s.w with writes := 0, env := (st.env.getD []).map toEnv, events := [], phaseEvents := [], applied := [] },
                              setEvents := [], setWrites := 0, setEnv := [] }
-    let (s1, r) := Pko.Model.Remote.reconcilePhaseCtl { phaseCfgOf scn with scope := cfg.scope } (setKindOf scn) (nsOf scn) st.set s0
+    let (s1, r) := Pko.Model.Remote.reconcilePhaseCtl { phaseCfgOf scn with scope := cfg.scope, mapErr := cfg.mapErr } (setKindOf scn) (nsOf scn) st.set s0
     (s1, stepOut r s1)
   | "env" =>
     ({ s with w := { s.w with store := (st.env.getD []).foldl (fun acc e => acc.env (toEnv e).2) s.w.store } }, "-")
@@ -302,6 +305,8 @@ where
 
 * `rescope` steps: the REST mapper's answer for a kind changes during the history.  The overrides
   live in `Sys.scopeOv`; `cfgAt` builds the configuration a step runs with.
+* REST-mapper faults (`Step.MapErr`): the lookups of some kinds fail with a transient error during
+  one pass (`Cfg.mapErr`, set per step by `stepModelX`).
 * refused writes (`Step.WFault`): the API answers the `at`-th write on a managed object of a pass
   with an error.  For every error class the harness injects, the code returns the error at once:
   the pass ends `err` and leaves behind what it had written before that request — the prefix
@@ -374,7 +379,9 @@ def refusedStep (scn : Scn) (cfg : Cfg) (st : JStep) (f : JWFault) (s : Sys) : S
 
 /-- one schedule step of the sys stream, with the environment behaviour above. -/
 def stepModelX (scn : Scn) (cfg0 : Cfg) (st : JStep) (s : Sys) : Sys × String :=
-  let cfg := cfgAt cfg0 s
+  -- the REST mapper as it answers during THIS step: scopes as registered now, lookups of the
+  -- step's `mapErr` kinds failing
+  let cfg := { cfgAt cfg0 s with mapErr := fun k => (st.mapErr.getD []).contains k }
   let st := if s.scopeOv.isEmpty then st else { st with env := st.env.map (·.map (normEnv cfg)) }
   if st.op = "rescope" then
     if st.set = "NsThing" ∨ st.set = "ClThing" then (rescope st.set (toScope st.value) s, "-") else (s, "BAD-STEP")
